@@ -54,7 +54,7 @@ def flush(run, drv, reqs):
     with L.ExitRecorder() as rec:
         for (stream, st, op, args, kwargs, edits) in reqs:
             rec.calls = []
-            res = L.run_block(st, op[0], args, kwargs, edits)
+            res = L.run_block(st, op[0], args, kwargs, edits, canon_op=op)
             results.append((res, list(rec.calls)))
     # the inverse call `__exit__` made (observable output of `_reverse_*`) vs the model's `reverse`
     rev_reqs, rev_idx = [], []
@@ -96,6 +96,24 @@ def flush(run, drv, reqs):
             else:
                 run.count("oracle.expected_error", why.split(" ")[0])
                 run.oracle_ok("ctx")
+    # bindings: the model's `exitBinds` (rebinding `update` for an unlocked original, in-place `update_` for a locked one) vs the
+    # storage each path of the original names after the block
+    b_reqs, b_idx, b_ids = [], [], []
+    for i, ((stream, st, op, args, kwargs, edits), (res, _)) in enumerate(zip(reqs, results)):
+        if res[0][0] != "ok" or res[6] is None or op[0] in ("lock_", "unlock_") or "y" not in res[6]:
+            continue
+        ids = {}
+        b = res[6]
+        line = (f"(c17.bind {op[0]} {L.enc_call(args, kwargs)} {'true' if st[3] else 'false'} "
+                f"{L.enc_binds(b['out'], ids)} {L.enc_binds(b['y'], ids)})")
+        b_reqs.append(line); b_idx.append(i); b_ids.append(ids)
+    for i, ids, ans in zip(b_idx, b_ids, ask_chunked(drv, b_reqs)):
+        (stream, st, op, args, kwargs, edits), (res, _) = reqs[i], results[i]
+        m = parse_sx(ans)
+        model = ["err", m[1]] if m[0] == "err" else ["ok", L.dec_binds(m[1])]
+        impl = ["ok", sorted((k, ids.setdefault(p, len(ids) + 1)) for k, p in res[6]["after"].items())]
+        run.corr("bind:" + op[0], {"op": list(op), "args": [list(a) if isinstance(a, tuple) else a for a in args], "kwargs": kwargs,
+                                   "edits": [list(e) for e in edits], "state": L.enc_state(st)}, impl, model)
     reqs.clear()
 
 
@@ -155,6 +173,11 @@ def main():
                 edits = [("add", ("w", "v"))]
             elif r < 0.85:
                 edits = [("value",), ("add", ("z",)), ("add", ("n", "zz"))]
+            if not st[3] and op[0] != "lock_" and rng.random() < 0.45:
+                # rebinding edits (unlocked originals: the yielded object of a locked original is locked, `set` of a new tensor is refused)
+                edits = edits + [rng.choice([("swap",), ("rebind", "dtype"), ("rebind", "feat"), ("rebind", "new"), ("swap",)])]
+                if rng.random() < 0.3:
+                    edits = [("swap",)] + edits
             reqs.append(("with:" + op[0], st, op, args, kwargs, edits))
         if len(reqs) > 300:
             flush(run, drv, reqs)
@@ -240,26 +263,108 @@ def main():
             else:
                 run.oracle_fail("ctx_nested", case, f"valid nested blocks raised {type(exc).__name__}: {str(exc)[:140]}", f"nested:raises:{op1[0]}:{op2[0]}")
 
-    # ---- extended domain (oracle only): lazy-stack originals
-    for i in range(60 if quick else 600):
-        n1 = rng.choice(["transpose", "permute", "unsqueeze", "flatten", "unflatten", "view", "squeeze", "flatten_keys", "lock_", "unlock_"])
-        st = L.gen_state(rng, rank=rng.choice([1, 2, 3]), for_op=None)
-        st = (tuple(max(d, 2) if j == 0 else d for j, d in enumerate(st[0])), None, [k for k in st[2]], st[3])
+    # ---- sequential blocks on the same original: the second block must not see anything of the first (stale `_last_op` / queue entries)
+    for i in range(100 if quick else 1500):
+        n1 = rng.choice(["transpose", "permute", "squeeze", "unsqueeze", "flatten", "unflatten", "view", "flatten_keys", "lock_", "unlock_"])
+        n2 = rng.choice(["transpose", "permute", "squeeze", "unsqueeze", "flatten", "unflatten", "view", "flatten_keys", "lock_", "unlock_"])
+        if n2 == "view" and n1 in ("transpose", "permute"):
+            n2 = "unsqueeze"      # torch: view needs contiguous leaves; a key added in the first block comes back non-contiguous (outside C17)
+        st = L.gen_state(rng, for_op=rng.choice([n1, n2]))
+        op1 = L.gen_canonical(rng, st, n1); sp1 = rng.choice(L.spellings(op1, st))
+        op2 = L.gen_canonical(rng, st, n2); sp2 = rng.choice(L.spellings(op2, st))
+        e1 = rng.choice([[], [("value",)], [("add", ("u",))]])
+        e2 = rng.choice([[], [("value",)], [("add", ("z",))], [("swap",)] if not st[3] and op2[0] != "lock_" else []])
+        case = {"op1": list(op1), "sp1": [list(sp1[0]), sp1[1]], "edits1": [list(e) for e in e1],
+                "op2": list(op2), "sp2": [list(sp2[0]), sp2[1]], "edits2": [list(e) for e in e2], "state": L.enc_state(st)}
+        run.case(json.dumps(case, default=str))
+        # model: two `withBlock`s in a row
+        m1 = parse_sx(drv.ask(model_lines(st, op1[0], sp1[0], sp1[1], e1)))
+        if m1[0] == "err":
+            model = ["err", m1[1]]
+        else:
+            mid = L.dec_state(m1[1])
+            mid_st = (tuple(mid[0]), tuple(None if x == "none" else x for x in mid[1]) if any(x != "none" for x in mid[1]) else None, [tuple(k) for k in mid[2]], mid[3])
+            m2 = parse_sx(drv.ask(model_lines(mid_st, op2[0], sp2[0], sp2[1], e2)))
+            model = ["err", m2[1]] if m2[0] == "err" else ["ok", L.dec_state(m2[1])]
+        td = L.build(st); ref = L.build(st)
+        exc = None
+        try:
+            with L.time_limit(30.0):
+                with L.apply_spelled(td, op1[0], *sp1) as y:
+                    for j, e in enumerate(e1):
+                        L.do_edit(y, e, j)
+                with L.apply_spelled(td, op2[0], *sp2) as z:
+                    for j, e in enumerate(e2):
+                        L.do_edit(z, e, j)
+            impl = ["ok", L.meta(td)]
+        except Exception as e:  # noqa: BLE001
+            impl, exc = ["err", L.err_class(e)], e
+        run.count("sequential.outcome", impl[0] if impl[0] == "ok" else "err:" + impl[1])
+        run.corr("sequential", case, impl, model)
+        if impl[0] != "ok":
+            continue
+        try:
+            was = ref.is_locked
+            yr = L.apply_spelled(ref, op1[0], *sp1)
+            for j, e in enumerate(e1):
+                L.do_edit(yr, e, j)
+            L.write_back(ref, op1, yr, was)
+            was = ref.is_locked
+            zr = L.apply_spelled(ref, op2[0], *sp2)
+            for j, e in enumerate(e2):
+                L.do_edit(zr, e, j)
+            L.write_back(ref, op2, zr, was)
+        except Exception as e:  # noqa: BLE001
+            run.count("sequential.reference_failed", type(e).__name__)
+            continue
+        bad = L.same_td(td, ref)
+        if bad:
+            run.oracle_fail("ctx_sequential", case, f"original after two blocks in a row differs from the by-hand inverses: {bad}", f"sequential:{op1[0]}:{op2[0]}")
+        else:
+            run.oracle_ok("ctx_sequential")
+
+    # ---- extended domain (oracle only): lazy-stack originals, unlocked / locked through the stack / locked only through the members
+    for i in range(120 if quick else 1200):
+        n1 = rng.choice(["transpose", "permute", "unsqueeze", "flatten", "unflatten", "view", "squeeze", "flatten_keys", "unflatten_keys", "lock_", "unlock_"])
+        st = L.gen_state(rng, rank=rng.choice([1, 2, 3]), for_op=n1 if n1 == "unflatten_keys" else None)
+        lock = rng.choice(["no", "no", "stack", "members", "relocked"])
+        st = (tuple(max(d, 2) if j == 0 else d for j, d in enumerate(st[0])), None, [k for k in st[2]], lock != "no")
         op1 = L.gen_canonical(rng, st, n1)
         sp1 = rng.choice(L.spellings(op1, st))
-        edits = rng.choice([[], [("value",)], [("add", ("z",))]])
-        case = {"container": "lazy", "op": list(op1), "spelling": [list(sp1[0]), sp1[1]], "edits": edits, "state": L.enc_state(st)}
+        edits = rng.choice([[], [("value",)], [("value",)]] if st[3] else [[], [("value",)], [("add", ("z",))], [("rebind", "new")], [("swap",)]])
+        case = {"container": "lazy", "lock": lock, "op": list(op1), "spelling": [list(sp1[0]), sp1[1]], "edits": [list(e) for e in edits], "state": L.enc_state(st)}
+        run.case(json.dumps(case, default=str))
+        # phase 1: the call and the edits (lazy stacks refuse several shape ops / edits by design: not judged)
         try:
-            lz = L.build_lazy(st)
-            ref = L.build_lazy(st)
+            lz = L.build_lazy(st, lock)
+            ref = L.build_lazy(st, lock)
+            members = list(lz.tensordicts)
+            held = [{k: m.get(k) for k in L.leaf_keys(m)} for m in members]
             with L.time_limit(30.0):
-                with L.apply_spelled(lz, op1[0], *sp1) as y:
-                    for j, e in enumerate(edits):
-                        L.do_edit(y, e, j)
+                cm = L.apply_spelled(lz, op1[0], *sp1)
+                y = cm.__enter__()
+                for j, e in enumerate(edits):
+                    L.do_edit(y, e, j)
         except Exception as e:  # noqa: BLE001
-            run.count("lazy.outcome", "err:" + type(e).__name__)
-            continue      # lazy stacks reject several shape ops / edits by design; only completed blocks are judged
+            run.count("lazy.outcome", "refused:" + type(e).__name__)
+            continue
+        # phase 2: a block whose body completed must exit normally
+        try:
+            with L.time_limit(30.0):
+                cm.__exit__(None, None, None)
+        except Exception as e:  # noqa: BLE001
+            if op1[0] == "squeeze" and op1[1] is None:
+                run.count("lazy.outcome", "implicit-squeeze")
+                continue
+            run.count("lazy.outcome", "exit-raises:" + type(e).__name__)
+            run.oracle_fail("ctx_lazy", case, f"the block body completed but __exit__ raised {type(e).__name__}: {str(e)[:140]}",
+                            f"lazy:{op1[0]}:exit-raises:{L.err_class(e)}")
+            continue
         run.count("lazy.outcome", "ok")
+        run.count("lazy.lock", lock)
+        if bool(lz.is_locked) != st[3] and op1[0] not in ():
+            run.oracle_fail("ctx_lazy", case, f"lock state of the lazy original changed: is_locked={lz.is_locked}", f"lazy:{op1[0]}:lock-changed")
+            continue
         try:
             was = ref.is_locked
             yr = L.apply_spelled(ref, op1[0], *sp1)
@@ -272,8 +377,15 @@ def main():
             continue
         if bad:
             run.oracle_fail("ctx_lazy", case, f"lazy original after the block differs from the by-hand inverse: {bad}", f"lazy:{op1[0]}")
-        else:
-            run.oracle_ok("ctx_lazy")
+            continue
+        if st[3] and op1[0] not in ("lock_", "unlock_"):
+            # "in place when the original is locked": the members still hold the very tensors they held
+            moved = [(mi, k) for mi, (m, h) in enumerate(zip(lz.tensordicts, held)) for k, v in h.items() if m.get(k) is not v]
+            if len(lz.tensordicts) != len(members) or any(a is not b for a, b in zip(lz.tensordicts, members)) or moved:
+                run.oracle_fail("ctx_lazy", case, f"locked lazy original was not written in place (members / leaves replaced: {moved[:2]})",
+                                f"lazy:{op1[0]}:locked-rebound")
+                continue
+        run.oracle_ok("ctx_lazy")
 
     # ---- extended domain (oracle only): tensorclass originals (value edits; the fields of a tensorclass are fixed)
     from typing import Any
@@ -291,7 +403,7 @@ def main():
         st = (st[0], st[1], [k for k in st[2] if k[0] in ("a", "b", "n")], st[3])
         op1 = L.gen_canonical(rng, st, n1)
         sp1 = rng.choice(L.spellings(op1, st))
-        edits = rng.choice([[], [("value",)]])
+        edits = rng.choice([[], [("value",)]] if st[3] or n1 == "lock_" else [[], [("value",)], [("swap",)], [("rebind", "new")], [("rebind", "dtype")], [("value",), ("swap",)]])
         case = {"container": "tensorclass", "op": list(op1), "spelling": [list(sp1[0]), sp1[1]], "edits": edits, "state": L.enc_state(st)}
         try:
             tc = C17TC._from_tensordict(L.build((st[0], st[1], st[2], False)))
